@@ -67,7 +67,7 @@ def draw(rng, alg):
         return {"kind": "cover", "alg": alg, "C": Cs, "values": gen.arrange(rng, v, rng.choice(gen.ORDERS)), "cls": "small/" + cls, "pres": "list", "pres_seed": 0}
     if x < 0.85:
         m = rng.choice([3, 4, 6, 8, 12, 20, 40, 60])
-        Cs = rng.choice([12, 30, 60, 100, 600, 1000])
+        Cs = rng.choice([12, 30, 60, 100, 600, 1000]) if rng.random() < 0.6 else rng.randint(12, rng.choice([250, 250, 5000]))     # arbitrary bin sizes too (see gen.free_binsize)
         v = []
         style = rng.choice(["mixed", "bigsmall", "medium", "thirds", "templates", "templates"])
         if style == "templates":
